@@ -45,3 +45,27 @@ Lemma w_c06 :
 Proof.
   split; [exact w_hist_ok|]. vm_compute. repeat split; reflexivity.
 Qed.
+
+(* ---- the submission guarantee of the no-silent-drop theorem is necessary ----
+   A QoS 0 PUBLISH submitted WITH the duplicate flag and WITH packet id 1 (both rejected by the
+   clients' submission-time validator validate_packet_outbound) is half encoded when the
+   connection closes while packet id 1 is pending for operation 2: closed_current takes it for
+   "already pending" and operation 3 stays in the table without being in any queue. *)
+Definition w_bad_pub : packet :=
+  Publish {| pub_pid := 1; pub_topic := [116]; pub_qos := 0; pub_dup := true; pub_retain := false;
+             pub_payload := Some (repeat 0 40); pub_pfi := None; pub_mei := None; pub_alias := None; pub_response_topic := None;
+             pub_correlation := None; pub_subids := None; pub_content_type := None; pub_up := None |}.
+Definition w_hist_bad : list event :=
+  w_hist ++ [EvWriteComplete 1; EvUser 2 w_bad_pub None; EvService 2 16 0; EvClose 3].
+Definition w_state_bad : istate := fst (i_run w_cfg (i_init w_cfg RNull) w_hist_bad).
+
+Lemma w_drop :
+  Forall ok_event w_hist_bad /\
+  Validate.Rules.validate_outbound w_bad_pub = Err EPacketValidationFailure /\
+  map o_res (snd (i_run w_cfg (i_init w_cfg RNull) w_hist_bad)) = repeat (Ok tt) 10 /\
+  map fst (s_ops w_state_bad) = [2; 3] /\
+  (s_uq w_state_bad, s_rq w_state_bad, s_hq w_state_bad, s_cur w_state_bad, s_pwco w_state_bad,
+   s_ppub w_state_bad, s_pnon w_state_bad) = ([], [2], [], None, [], [], []).
+Proof.
+  split; [unfold w_hist_bad, w_hist; repeat constructor; cbn; unfold TMAX; lia|]. vm_compute. repeat split; reflexivity.
+Qed.
